@@ -24,6 +24,7 @@ import (
 	"net/url"
 	"strconv"
 	"strings"
+	"sync"
 )
 
 type kvEntry struct {
@@ -97,12 +98,22 @@ type response struct {
 type fakeConsul struct {
 	srv      *httptest.Server
 	arrivals chan *request
+	quit     chan struct{} // closed by shutdown: every parked request is answered 500
+	quitOnce sync.Once
 }
 
 func newFakeConsul() *fakeConsul {
-	f := &fakeConsul{arrivals: make(chan *request, 64)}
+	f := &fakeConsul{arrivals: make(chan *request, 64), quit: make(chan struct{})}
 	f.srv = httptest.NewServer(f)
 	return f
+}
+
+// shutdown releases every request still parked (answer 500: the real callers behind them return)
+// and closes the server. httptest.Server.Close waits for outstanding requests, so a simulator that
+// is given up while requests are parked must let them go first.
+func (f *fakeConsul) shutdown() {
+	f.quitOnce.Do(func() { close(f.quit) })
+	f.srv.Close()
 }
 
 func (f *fakeConsul) addr() string { return strings.TrimPrefix(f.srv.URL, "http://") }
@@ -115,8 +126,17 @@ func (f *fakeConsul) ServeHTTP(w http.ResponseWriter, r *http.Request) {
 		http.Error(w, "not simulated", http.StatusNotFound)
 		return
 	}
-	f.arrivals <- rq
-	rp := <-rq.reply
+	var rp response
+	select {
+	case f.arrivals <- rq:
+		select {
+		case rp = <-rq.reply:
+		case <-f.quit:
+			rp = response{code: 500, body: []byte("simulator shut down")}
+		}
+	case <-f.quit:
+		rp = response{code: 500, body: []byte("simulator shut down")}
+	}
 	w.Header().Set("Content-Type", "application/json")
 	w.Header().Set("X-Consul-Index", strconv.FormatUint(rp.index, 10))
 	w.Header().Set("X-Consul-KnownLeader", "true")
